@@ -388,6 +388,10 @@ def search(ctx, boost=1, focus=()):
                              {"radius_outer": radius * 1.3, "search": radius * 1.3},
                              {"radius_outer": radius * 1.3, "search": radius * 1.299}, {"search": radius * 1.5},
                              {"search": radius * 1.49}, {"radius_outer": radius * 0.9, "search": 3 * radius}]
+            # an explicit zero is a value like any other (and inconsistent: the search range / outer radius cannot be below the radius)
+            variants += [{"search": 0}, {"search": 0.0}]
+            if bs:
+                variants += [{"radius_outer": 0, "search": 3 * radius}, {"radius_outer": 0.0}, {"radius_outer": radius * 1.3, "search": 0}]
             for v in variants:
                 p = {"kind": kind, "radius": radius, **v}
                 ctx.oracle_case("ctor", p, run_case("ctor", p))
